@@ -105,6 +105,8 @@ class C07(Prop):
         cmp = getattr(self, "compare", True)
         core.tie_run(stats, "vq", ["gen-seq", seed, 6000 if tier == "thorough" else 700], self.nontrivial, cmp)
         core.tie_run(stats, "vq", ["gen-backlog"], self.nontrivial, cmp)
+        # "an expired timer" is exact: receives a fraction of a millisecond before a deadline must not see it
+        core.tie_run(stats, "vq", ["gen-early", 1200 if tier == "thorough" else 240], self.nontrivial, cmp)
         if tier == "thorough":
             core.tie_run(stats, "vq", ["gen-seq-exh", 5], self.nontrivial, cmp)
 
@@ -153,6 +155,8 @@ class C01(Prop):
         # a keepalive configuration the OS rejects, on either side: the connection works all the same
         core.tie_run(stats, "stream", ["gen-badka", "F"], lambda c, t: True, cmp)
         core.tie_run(stats, "stream", ["gen-slowreader", "F"], lambda c, t: True, cmp)
+        # a WebSocket acceptor that greets right behind its handshake answer
+        core.tie_run(stats, "stream", ["gen-earlyws"], lambda c, t: True, cmp)
         # through the node layer: messages that arrive before the listener call keep their order
         core.tie_run(stats, "node", ["gen-early", seed + 9, 2], lambda c, t: True, cmp)
         if th:
@@ -432,7 +436,7 @@ class C05(Prop):
 class C09(Prop):
     id = "C09"
     module = "MioModel.Props.C09"
-    bins = ["node"]
+    bins = ["node", "net"]
     run_bin = "node"
     rule = ("cases = for each listener mode: stop() before the listener call with 0/1/3 cached start-up events; stop() inside "
             "the callback of the i-th network event / i-th signal while peers and signals keep flowing; stop() inside a signal "
@@ -449,6 +453,8 @@ class C09(Prop):
     def tie(self, stats, tier, seed):
         cmp = getattr(self, "compare", True)
         core.tie_run(stats, "node", ["gen-stop", tier], self.nontrivial, cmp)
+        # the listener returns after stop() also when a listener's accept() keeps failing (descriptor table full)
+        core.tie_run(stats, "net", ["gen-emfile"], lambda c, t: True, cmp)
 
     def search(self, tier, seed):
         st = core.Stats()
@@ -556,6 +562,8 @@ class C08(Prop):
         core.tie_run(stats, "vq", ["gen-backlog"], self.nontrivial, cmp)
         # cancels issued inside the last millisecond before the deadline (and of sub-millisecond timers)
         core.tie_run(stats, "vq", ["gen-latecancel", 1200 if th else 240], self.nontrivial, cmp)
+        # durations the clock cannot represent: refused or pending for ever, never delivered
+        core.tie_run(stats, "vq", ["gen-farfuture"], self.nontrivial, cmp)
 
     def search(self, tier, seed):
         st = core.Stats()
